@@ -135,10 +135,14 @@ def cases(tier, seed):
         for k in range(1, n + 1):
             for h in itertools.product(al, repeat=k):
                 yield {"u": u, "ops": pre + list(h), "foreign": True}
+    al = [o for o in alphabet("U3") if o[0] in ("add_assoc", "remove_asset", "remove_assoc", "remove_from_assoc")]
+    for k in range(1, 4):
+        for h in itertools.product(al, repeat=k):
+            yield {"u": "U3", "ops": pre + list(h), "foreign": True}
     count, hi = (9000, 12) if tier == "quick" else (150000, 14)
     full = {u: alphabet(u, True) for u in L.UNIVERSES}
     for i in range(count):
-        u = ("U0", "U1", "U2")[i % 3]
+        u = ("U0", "U1", "U2", "U0", "U1", "U2", "U3")[i % 7]
         al, sim = full[u], _Sim(u)
         n = rnd.randint(4, hi)
         p_valid = rnd.choice((0.6, 0.8, 0.95))
@@ -224,7 +228,7 @@ def run_case(recipe):
             after, after_x = S.observe()
         except Exception as e:
             fail("no-crash", fn, "%s: reading the state back raised %s" % (where, L.exc_name(e)),
-                 "%s:observe:%s" % (kind, L.exc_name(e)))
+                 "structural-eq:RecursionError" if isinstance(e, RecursionError) else "%s:observe:%s" % (kind, L.exc_name(e)))
             outcomes.append("crash"); break
 
         if exc is not None:
@@ -232,6 +236,7 @@ def run_case(recipe):
             ok_atomic = True
             if isinstance(exc, RecursionError) or (why is None and isinstance(exc, L.CRASH)):
                 fail("no-crash", fn, "%s raised %s: %s" % (where, L.exc_name(exc), str(exc)[:120]),
+                     "structural-eq:RecursionError" if isinstance(exc, RecursionError) else
                      "%s:%s:%s" % (kind, why or "valid", L.exc_name(exc)))
             if why is None:
                 det = ""
@@ -286,8 +291,8 @@ def run_case(recipe):
             if op[2] is not None and t.id != op[2]:
                 fail("attackers", fn, "%s: explicit attacker id %r not honoured (got %r)" % (where, op[2], t.id),
                      "add_attacker:explicit-id-%s-not-honoured" % _idclass(op[2]))
-            if t.id in {i for (i, _) in ref.attackers.values()}:
-                fail("attackers", fn, "%s: attacker id %r already used" % (where, t.id), "add_attacker:id-collides")
+            if op[2] is None and t.id in {i for (i, _) in ref.attackers.values()}:
+                fail("attackers", fn, "%s: generated attacker id %r already used" % (where, t.id), "add_attacker:id-collides")
             ref.add_attacker(op[1], t.id, str(t.name))
         elif kind == "remove_attacker":   ref.remove_attacker(op[1])
         elif kind == "add_ep":            ref.add_ep(op[1], op[2], op[3])
@@ -395,7 +400,7 @@ def lookups_and_dict(r, S, ref, kind, fn, where, seen_ids, seen_names):
             "assets": {int(k): [v["name"], v["type"]] for k, v in d["assets"].items()},
             "links": sorted(json.dumps({k: v for k, v in e.items() if k != "extras"}, sort_keys=True) for e in d["associations"]),
             "attackers": {k: [v["name"], {int(a): sorted(x["attack_steps"]) for a, x in v["entry_points"].items()}]
-                          for k, v in d["attackers"].items()},
+                          for k, v in d["attackers"].items()},     # (two attackers with one id: C07's business)
         }
     except Exception as e:
         r.check("C05.no-crash", False, "maltoolbox.model:Model._to_dict", "%s: _to_dict raised %s" % (where, L.exc_name(e)),
@@ -413,8 +418,9 @@ def lookups_and_dict(r, S, ref, kind, fn, where, seen_ids, seen_names):
     def norm(js):
         e = json.loads(js); return json.dumps({k: {f: sorted(v) for f, v in fs.items()} for k, fs in e.items()}, sort_keys=True)
     got["links"] = sorted(norm(x) for x in got["links"]); want["links"] = sorted(norm(x) for x in want["links"])
+    dup_att = len({i for (i, _) in ref.attackers.values()}) < len(ref.attackers)
     for sec in ("assets", "links", "attackers"):
-        if got[sec] != want[sec]:
+        if got[sec] != want[sec] and not (sec == "attackers" and dup_att):
             ok = False
             r.check("C05.to-dict", False, "maltoolbox.model:Model._to_dict",
                     "%s: _to_dict()[%s] is %s, reference %s" % (where, sec, got[sec], want[sec]), "%s:%s" % (kind, sec))
